@@ -27,6 +27,35 @@ pub fn line(a: &[String]) {
     println!("wire={}", hex(&c.into_inner().out));
 }
 
+/// linety <str|string|cowb|cowo> <name> <arg>... : as `line`, the arguments passed as &str / String / Cow::Borrowed / Cow::Owned.
+pub fn linety(a: &[String]) {
+    use std::borrow::Cow;
+    let ty = a[0].as_str();
+    let b = args_bytes(&a[1..]);
+    let name = String::from_utf8(b[0].clone()).expect("utf8 name");
+    let mut cmd = match Command::build(&name) {
+        Ok(c) => c,
+        Err(_) => { println!("build=err"); return; }
+    };
+    println!("build=ok");
+    for (i, arg) in b[1..].iter().enumerate() {
+        let s = String::from_utf8(arg.clone()).expect("utf8 arg");
+        let r = match ty {
+            "string" => cmd.add_argument(s),
+            "cowb" => cmd.add_argument(Cow::Borrowed(s.as_str())),
+            "cowo" => cmd.add_argument(Cow::<str>::Owned(s)),
+            _ => cmd.add_argument(s.as_str()),
+        };
+        match r {
+            Ok(()) => println!("add{i}=ok"),
+            Err(_) => println!("add{i}=err"),
+        }
+    }
+    let mut c = conn();
+    c.send(cmd).expect("send");
+    println!("wire={}", hex(&c.into_inner().out));
+}
+
 /// list <n> then n groups `<name> <argc> <args...>` : CommandList::new/add, Connection::send_list.
 pub fn list(a: &[String]) {
     let n: usize = a[0].parse().unwrap();
